@@ -334,6 +334,9 @@ pub struct Map {
     pub written: [bool; CAP],
     /// global sequence number of the first write (u32::MAX if none)
     pub first_write_seq: [u32; CAP],
+    /// harness choice: the storage class starts EMPTY (a freshly constructed contract) instead of in an
+    /// arbitrary state
+    pub starts_empty: bool,
 }
 impl Map {
     pub const fn new() -> Self {
@@ -348,6 +351,7 @@ impl Map {
             val_n: [0; CAP],
             written: [false; CAP],
             first_write_seq: [u32::MAX; CAP],
+            starts_empty: false,
         }
     }
     /// Materialise `key` lazily; returns the mask selecting its canonical slot.  Branch-free.
@@ -366,7 +370,7 @@ impl Map {
             harness_bug("Map capacity");
         }
         let j = self.n;
-        let p: bool = nondet();
+        let p: bool = if self.starts_empty { false } else { nondet() };
         let v = Short::symbolic();
         self.key[j] = k;
         self.valid[j] = !any;
@@ -999,6 +1003,16 @@ pub fn intern(w: Words) -> u64 {
     unsafe { INTERN.lookup(w, true) }
 }
 
+pub static mut UF: WTable<32> = WTable::new();
+/// A plain uninterpreted function of a word tuple: equal arguments give equal results, and NOTHING
+/// else is known (in particular not injective).  Used for operations on abstract byte strings whose
+/// result is not determined by identities alone — concatenation of variable-length strings, proper
+/// sub-strings: `"a_" ++ "b"` and `"a" ++ "_b"` are the same bytes, so modelling them by an injective
+/// constructor would verify code that relies on such a concatenation being collision-free.
+pub fn uf(w: Words) -> u64 {
+    unsafe { UF.lookup(w, false) }
+}
+
 pub static mut XDR: WTable<24> = WTable::new();
 /// `to_xdr`: uninterpreted, injective on the terms of one run.
 pub fn xdr_of(w: Words) -> u64 {
@@ -1044,7 +1058,7 @@ pub fn keccak_of(id: u64) -> crate::BytesN<32> {
     crate::BytesN([sel(any, r[0], fresh[0]), sel(any, r[1], fresh[1]), sel(any, r[2], fresh[2]), sel(any, r[3], fresh[3]), 0, 0, 0, 0])
 }
 
-pub static mut SIGS: WTable<6> = WTable::new();
+pub static mut SIGS: WTable<8> = WTable::new();
 /// Ed25519 validity: uninterpreted predicate of (public key, message, signature).
 pub fn sig_valid(pk: &crate::BytesN<32>, msg: &crate::Bytes, sig: &crate::BytesN<64>) -> bool {
     let mut w = Words::new();
@@ -1054,7 +1068,7 @@ pub fn sig_valid(pk: &crate::BytesN<32>, msg: &crate::Bytes, sig: &crate::BytesN
     unsafe { SIGS.lookup(w, false) & 1 == 1 }
 }
 
-pub static mut LEN: WTable<8> = WTable::new();
+pub static mut LEN: WTable<32> = WTable::new();
 /// length of an abstract string / byte string: zero exactly for the empty one
 pub fn len_of(id: u64) -> u32 {
     if id == crate::EMPTY_ID {
